@@ -142,6 +142,15 @@ def id_value_steers(ctx: Ctx, f):
                 for x in ast.walk(c):
                     if isinstance(x, ast.Name) and (t.func.qual, x.id) in tainted:
                         return t, x.id
+        # the truth value of an id is a statement about its value too: the first task of a pool has id 0
+        e = t.ast
+        while isinstance(e, ast.UnaryOp) and isinstance(e.op, ast.Not):
+            e = e.operand
+        for x in ([e] if not isinstance(e, ast.BoolOp) else list(e.values)):
+            while isinstance(x, ast.UnaryOp) and isinstance(x.op, ast.Not):
+                x = x.operand
+            if isinstance(x, ast.Name) and (t.func.qual, x.id) in tainted:
+                return t, x.id
     return None
 
 
